@@ -121,10 +121,10 @@ Section B.
       apply cancel_unit. exact Hinv.
     Qed.
 
-    Theorem same_secret_complete BP x r1 r2 b E Ei F Fi ds p ds' :
+    Theorem same_secret_complete BP x r1 r2 b s2x E Ei F Fi ds p ds' :
       E == Cm g1 g1i h1 h1i x r1 -> F == Cm g2 g2i h2 h2i x r2 ->
       invert E n = Some Ei -> invert F n = Some Fi ->
-      proof_same_secret BP x r1 r2 g1 h1 g2 h2 b n ds = Ok (p, ds') ->
+      proof_same_secret BP x r1 r2 g1 h1 g2 h2 b n s2x ds = Ok (p, ds') ->
       verify_same_secret E F g1 h1 g2 h2 n p = Ok true.
     Proof.
       intros HE HF HEi HFi H. unfold proof_same_secret in H.
@@ -160,9 +160,9 @@ Section B2.
   Local Notation Hp := (gp n h hi).
 
   (* ---------------------------------------------------------------- Algorithms 3 / 4: proof of square *)
-  Theorem square_complete BP x r1 b ds p ds' :
+  Theorem square_complete BP x r1 b s2x ds p ds' :
     0 <= x ->
-    proof_of_square BP x r1 g h (C (x ^ 2) r1) b n ds = Ok (p, ds') ->
+    proof_of_square BP x r1 g h (C (x ^ 2) r1) b n s2x ds = Ok (p, ds') ->
     sq_E p = C (x ^ 2) r1 /\ verify_of_square p g h n = Ok true.
   Proof.
     intros Hx H. unfold proof_of_square in H.
@@ -172,7 +172,7 @@ Section B2.
     unfold verify_of_square. cbn [sq_E sq_F sq_ss].
     destruct (Cm_invertible n Hn g gi h hi Hg Hh x r2) as [Fi HFi].
     destruct (Cm_invertible n Hn g gi h hi Hg Hh (x ^ 2) r1) as [Ei HEi].
-    eapply (same_secret_complete n Hn g gi h hi (C x r2) Fi h hi Hg Hh HFi Hh BP x r2 (r1 - r2 * x) b (C x r2) Fi (C (x ^ 2) r1) Ei);
+    eapply (same_secret_complete n Hn g gi h hi (C x r2) Fi h hi Hg Hh HFi Hh BP x r2 (r1 - r2 * x) b s2x (C x r2) Fi (C (x ^ 2) r1) Ei);
       [apply eqm_refl| |exact HFi|exact HEi|exact Hss].
     (* E = F^x * h^(r1 - r2 x) *)
     pose proof (invert_eqm n (C x r2) Fi HFi) as HFu. pose proof (invert_eqm n h hi Hh) as Hhu. pose proof (invert_eqm n g gi Hg) as Hgu.
@@ -295,8 +295,8 @@ Section B3.
     { unfold zsqrt in Hxa1. destruct (x - aa <? 0); [discriminate|]. inversion Hxa1. apply Z.sqrt_nonneg. }
     assert (Hxb1n : 0 <= xb1).
     { unfold zsqrt in Hxb1. destruct (bb - x <? 0); [discriminate|]. inversion Hxb1. apply Z.sqrt_nonneg. }
-    destruct (square_complete n Hn g gi h hi Hg Hh BP xa1 ra1 b _ _ _ Hxa1n Hsqa) as [HsqaE Hsqav].
-    destruct (square_complete n Hn g gi h hi Hg Hh BP xb1 rb1 b _ _ _ Hxb1n Hsqb) as [HsqbE Hsqbv].
+    destruct (square_complete n Hn g gi h hi Hg Hh BP xa1 ra1 _ _ _ _ _ Hxa1n Hsqa) as [HsqaE Hsqav].
+    destruct (square_complete n Hn g gi h hi Hg Hh BP xb1 rb1 _ _ _ _ _ Hxb1n Hsqb) as [HsqbE Hsqbv].
     pose proof (large_interval_complete n Hn g gi h hi Hg Hh BP _ _ b T _ _ _ Ht Hlia) as Hliav.
     pose proof (large_interval_complete n Hn g gi h hi Hg Hh BP _ _ b T _ _ _ Ht Hlib) as Hlibv.
     unfold verify_of_tolerance.
